@@ -377,6 +377,36 @@ def bigger(rng, o):
     return o2
 
 
+def py_no_plan_ahead_applies(adj, tasks, op):
+    """Python twin of c18_no_plan_ahead_applies (used for the coverage count only)"""
+    o = op[1]
+    if o["lookahead"] != 0 or o["retract"] or o["release_tg"]:
+        return False
+    par = parents_of(adj)
+
+    def complete(n):
+        return tasks[n][0] in (6, 7)
+
+    def remaining(n):
+        f = tasks[n]
+        return 0 if f[0] in (7, 8) else (f[3] if f[0] in (3, 4, 5, 6) else max(f[9]))
+    for n, f in tasks.items():
+        s = f[0]
+        if max(f[9]) <= 0 or f[6]:
+            return False
+        if s in (4, 5) and remaining(n) <= 0:
+            return False
+        if s == 3 and not (o["time"] < (f[7] if f[7] is not None else -1) + remaining(n)):
+            return False
+        if s in (6, 7) and not f[8] <= o["time"]:
+            return False
+        if s == 1 and not all(complete(p) for p in par[n]):
+            if not any(tasks[p][0] in (2, 3, 4, 5) or (tasks[p][0] == 1 and not all(complete(q) for q in par[p]))
+                       for p in par[n]):
+                return False
+    return True
+
+
 def py_frontier_check(adj, tasks, o, fr):
     for n, f in tasks.items():
         if f[0] == 2 and f[1] <= o["time"] + o["lookahead"] and n not in fr:
@@ -485,6 +515,17 @@ def run(ctx):
         if op[0] == "notify" and not t[op[1]][6] and r[0][0] == 0:
             ccases.append("(%s, %s, %s)" % (g_graph(a, t), gz(op[1]), glist([gz(x) for x in r[0][1][0]])))
             cwhere.append(i)
+    rcases, rwhere, lcases, lwhere, ecases, ewhere = [], [], [], [], [], []
+    for i, ((a, t, op), r) in enumerate(zip(triples, res)):
+        if op[0] == "ready":
+            rcases.append("(%s, %s, %s)" % (g_graph(a, t), gz(op[1]), gbool(r)))
+            rwhere.append(i)
+        elif op[0] == "releasable":
+            lcases.append("(%s, %s)" % (g_graph(a, t), glist([gz(x) for x in r])))
+            lwhere.append(i)
+        elif op[0] == "notify" and not t[op[1]][6] and r[0] == [1, 3]:
+            ecases.append("(%s, %s)" % (g_graph(a, t), gz(op[1])))
+            ewhere.append(i)
     mcases, mwhere = [], []
     for i, j in pairs:
         if res[i][0] == 0 and res[j][0] == 0:
@@ -507,20 +548,33 @@ def run(ctx):
     W3 = "a larger lookahead / release_taskgraphs removed a task from the frontier"
     W4 = "notify_task_completion did not release exactly the children whose every parent is complete (join: after its first parent)"
     try:
-        for b in ctx.monitor_stream("S-frontier", HEADER, "tgraph * sched_opts * list Z", "c18_frontier_check", fcases)[:3]:
-            report(fwhere[b], "frontier", W1)
-        bad = ctx.monitor_stream("S-no-plan-ahead", HEADER, "tgraph * sched_opts * list Z", "c18_no_plan_ahead_check", fcases)
-        napp = len(ctx.monitor_stream("S-no-plan-ahead-applies", HEADER, "tgraph * sched_opts * list Z",
-                                      "(fun x => negb (c18_no_plan_ahead_applies x))", fcases))
-        ctx.cov["input_distribution"]["no_plan_ahead_side_conditions_hold"] = napp
-        ctx.cov["streams"].pop("S-no-plan-ahead-applies:monitor", None)      # a counter, not a verdict
-        for b in bad[:3]:
-            report(fwhere[b], "planahead", W2)
+        # the three monitors over the same observations are evaluated together (parsing the cases dominates);
+        # only when the conjunction fails somewhere are they evaluated one by one to name the clause
+        fmons = [("c18_frontier_check", "frontier", W1), ("c18_no_plan_ahead_check", "planahead", W2),
+                 ("c18_virtual_offer_check", "virtualoffer",
+                  "get_schedulable_tasks (no retraction, no release_taskgraphs, no conditional task): a VIRTUAL task is offered "
+                  "iff its estimated completion (latest over its parents) is within time + lookahead + its runtime "
+                  "[reference estimate by recursion over the parents]")]
+        conj = "(fun x => andb (c18_frontier_check x) (andb (c18_no_plan_ahead_check x) (c18_virtual_offer_check x)))"
+        if ctx.monitor_stream("S-frontier", HEADER, "tgraph * sched_opts * list Z", conj, fcases):
+            for fn, tag, what in fmons:
+                for b in ctx.monitor_stream("S-frontier-" + tag, HEADER, "tgraph * sched_opts * list Z", fn, fcases)[:3]:
+                    report(fwhere[b], tag, what)
+        ctx.cov["input_distribution"]["no_plan_ahead_side_conditions_hold"] = sum(
+            1 for i in fwhere if py_no_plan_ahead_applies(*triples[i]))
         for b in ctx.monitor_stream("S-mono", HEADER, "list Z * list Z", "c18_mono_check", mcases)[:3]:
             i, j = mwhere[b]
             report(i, "mono", W3, {"second_call_options": triples[j][2][1], "second_call_result": res[j]})
         for b in ctx.monitor_stream("S-children", HEADER, "tgraph * Z * list Z", "c18_children_check", ccases)[:3]:
             report(cwhere[b], "children", W4)
+        for b in ctx.monitor_stream("S-children-err", HEADER, "tgraph * Z", "c18_children_err_check", ecases)[:3]:
+            report(ewhere[b], "childrenerr", "notify_task_completion raised RuntimeError although no child had started")
+        for b in ctx.monitor_stream("S-ready", HEADER, "tgraph * Z * bool", "c18_ready_check", rcases)[:3]:
+            report(rwhere[b], "ready", "is_ready_to_run: a regular task needs ALL parents complete, a join ONE, and the state "
+                                       "SCHEDULED / PREEMPTED")
+        for b in ctx.monitor_stream("S-releasable", HEADER, "tgraph * list Z", "c18_releasable_check", lcases)[:3]:
+            report(lwhere[b], "releasable", "get_releasable_tasks: exactly the VIRTUAL / SCHEDULED / PREEMPTED tasks whose every "
+                                            "parent is complete")
     except core.ModelEvalError as e:
         ctx.broken.append({"kind": "monitor", "name": "c18 monitors", "detail": str(e)[-600:]})
         for i in fwhere:
